@@ -90,3 +90,35 @@ Example c16_length_hypothesis_needed :
     wf_message m = false /\
     dlt_message (message_bytes m) None false = PIncomplete (Some 5).
 Proof. eexists. repeat split; vm_compute; reflexivity. Qed.
+
+(* ---------- the property itself: the premise of [c16_from_roundtrip] is C01 ---------- *)
+From DltV.Proofs Require Roundtrip.
+
+Theorem c16_stable : forall bs f sh m rest,
+  dlt_message bs f sh = POk (Item m) rest ->
+  len (message_bytes m) = (if sh then 16 else 0) + overall_length (m_header m) ->
+  dlt_message (message_bytes m) None sh = POk (Item m) [].
+Proof. exact (c16_from_roundtrip Roundtrip.message_roundtrip). Qed.
+Check c16_stable : forall bs f sh m rest,
+  dlt_message bs f sh = POk (Item m) rest ->
+  len (message_bytes m) = (if sh then 16 else 0) + overall_length (m_header m) ->
+  dlt_message (message_bytes m) None sh = POk (Item m) [].
+Print Assumptions c16_stable.
+
+(* "serialising again reproduces the same bytes": whatever the second parse returns re-serialises
+   to the bytes it was parsed from *)
+Theorem c16_bytes_stable : forall bs f sh m rest m' rest',
+  dlt_message bs f sh = POk (Item m) rest ->
+  len (message_bytes m) = (if sh then 16 else 0) + overall_length (m_header m) ->
+  dlt_message (message_bytes m) None sh = POk (Item m') rest' ->
+  m' = m /\ rest' = [] /\ message_bytes m' = message_bytes m.
+Proof.
+  intros bs f sh m rest m' rest' H L H2.
+  rewrite (c16_stable bs f sh m rest H L) in H2. injection H2 as <- <-. repeat split.
+Qed.
+Check c16_bytes_stable : forall bs f sh m rest m' rest',
+  dlt_message bs f sh = POk (Item m) rest ->
+  len (message_bytes m) = (if sh then 16 else 0) + overall_length (m_header m) ->
+  dlt_message (message_bytes m) None sh = POk (Item m') rest' ->
+  m' = m /\ rest' = [] /\ message_bytes m' = message_bytes m.
+Print Assumptions c16_bytes_stable.
